@@ -31,6 +31,10 @@ Mutations caught (each in a private copy of lib/, ``VF_REPO=... ./check C49``; a
 * ``MutableComposite.changed``: only the first column attribute written back
 * the ``_sa_event_merge_wo_load`` listener not registered (merge(load=False) onto a present instance)
 * ``MutableDict.coerce``: an empty plain dict coerced to None
+* ``MutableDict.pop``: ``changed()`` skipped when the result is (or equals) the passed default, or is None
+  (needs a stored value that coincides with the default: ``{"gone": None}.pop("gone", None)``,
+  ``d.pop(k, d.get(k))``, an equal-but-distinct list) -- three edits
+* ``MutableDict.setdefault`` / ``popitem`` / ``MutableList.pop``: ``changed()`` skipped when the result (value) is None
 
 Genuine defects found on the unchanged tree (reported; /verif/proposed_fixes/c49_*.diff): ``MutableDict |= other``
 and ``MutableList *= n`` do not call ``changed()`` (change never flushed); after ``Session.merge()`` of an object
@@ -59,7 +63,7 @@ META = dict(
     design_ref="DESIGN.md §5 C49",
     level_text="For MutableDict and MutableList on JSON columns, MutableSet on a PickleType column and a MutableComposite "
     "Point, all histories up to depth 3 (quick) / 4 (thorough) over every mutator method and in-place operator (small "
-    "argument domain), plain/None assignment, flush, commit, rollback, expire, refresh, pickle round trip of the parent "
+    "argument domain, including defaults that are the stored object itself, equal to it, or None stored as a value), plain/None assignment, flush, commit, rollback, expire, refresh, pickle round trip of the parent "
     "and merge into a new Session are executed on the real objects; after every transition the attribute value, the "
     "raw stored value and session.dirty are compared with the model, and from every reached state a flush (and a "
     "commit + reload) must leave stored == in-memory.",
@@ -97,6 +101,17 @@ MUT = dict(
         ["popitem"],
         ["clear"],
         ["ior", {"c": 5}],
+        # defaults / sentinels that coincide with a stored value: the stored value is None, the default IS the
+        # stored object, the default is equal to but not the same object as the stored value
+        ["pop", "gone"],
+        ["pop_default", "gone"],
+        ["pop_ident", "a"],
+        ["pop_ident", "lst"],
+        ["pop_equal", "lst", [7]],
+        ["setdefault", "gone", None],
+        ["setdefault_ident", "lst"],
+        ["setdefault", "lst", [7]],
+        ["setdefault", "n", None],
     ],
     l=[
         ["append", 1],
@@ -105,6 +120,7 @@ MUT = dict(
         ["insert", 0, 2],
         ["remove", 1],
         ["remove", 9],
+        ["append", None],
         ["pop"],
         ["pop", 0],
         ["sort"],
@@ -123,6 +139,7 @@ MUT = dict(
         ["add", 2],
         ["discard", 1],
         ["discard", 9],
+        ["discard", 1000],
         ["remove", 1],
         ["remove", 9],
         ["pop"],
@@ -145,14 +162,14 @@ ASSIGN = dict(
     pt=[["assign", [5, 6]], ["assign", [1, 2]]],
 )
 SESSION_OPS = [["flush"], ["commit"], ["rollback"], ["expire"], ["refresh"], ["pickle"], ["merge"], ["merge_new"], ["merge_noload"]]
-INITS = dict(d=[{}, {"a": 1, "b": 2}], l=[[], [1, 2, 1]], s=[[], [1, 2]], pt=[[1, 2], [3, None]])
+INITS = dict(d=[{}, {"a": 1, "b": 2, "lst": [7], "gone": None}], l=[[], [1, 2, 1]], s=[[], [1, 2, 1000]], pt=[[1, 2], [3, None]])
 
 
 def _freeze(kind, v):
     if v is None:
         return None
     if kind == "d":
-        return tuple(sorted(v.items()))
+        return tuple((k, tuple(x) if isinstance(x, list) else x) for k, x in sorted(v.items(), key=lambda kv: kv[0]))
     if kind == "s":
         return tuple(sorted(v))
     return tuple(v)
@@ -179,11 +196,18 @@ def apply_mut(kind, t, op, holder=None, attr=None):
         if n == "update_pairs":
             return t.update([tuple(p) for p in op[1]])
         if n == "setdefault":
-            return t.setdefault(op[1], op[2])
+            return t.setdefault(op[1], copy.deepcopy(op[2]))
         if n == "pop":
             return t.pop(op[1])
         if n == "pop_default":
             return t.pop(op[1], None)
+        if n == "pop_ident":
+            # the default is the very object stored under the key (None when the key is absent)
+            return t.pop(op[1], t.get(op[1]))
+        if n == "pop_equal":
+            return t.pop(op[1], copy.deepcopy(op[2]))
+        if n == "setdefault_ident":
+            return t.setdefault(op[1], t.get(op[1]))
         if n == "popitem":
             return t.popitem()
         if n == "clear":
@@ -469,6 +493,10 @@ def enabled(kind, ms):
     ops = []
     if ms.mem is not None:
         for m in MUT[kind]:
+            if kind == "l" and m[0] == "sort" and any(x is None for x in ms.mem):
+                # None is not orderable against ints: list.sort() raises after partially permuting the list
+                # (an error path of the builtin itself, outside the alphabet)
+                continue
             ops.append(m)
             if m[0] in ("ior", "iadd", "imul", "iand", "isub", "ixor"):
                 ops.append(m + ["@attr"])
@@ -533,6 +561,18 @@ def opstr(kind, op):
         return "doc.pt.x = %r" % args[0]
     if n == "sety":
         return "doc.pt.y = %r" % args[0]
+    if n == "pop_default":
+        return "%s.pop(%r, None)" % (tgt, args[0])
+    if n == "pop_ident":
+        return "%s.pop(%r, %s.get(%r))" % (tgt, args[0], tgt, args[0])
+    if n == "pop_equal":
+        return "%s.pop(%r, %r)" % (tgt, args[0], args[1])
+    if n == "setdefault_ident":
+        return "%s.setdefault(%r, %s.get(%r))" % (tgt, args[0], tgt, args[0])
+    if n == "update_kw":
+        return "%s.update(%s=%r)" % (tgt, args[0], args[1])
+    if n == "update_pairs":
+        return "%s.update(%r)" % (tgt, [tuple(x) for x in args[0]])
     if n == "setslice":
         return "%s[%s:%s] = %r" % (tgt, args[0][0], args[0][1], args[1])
     if n == "delslice":
